@@ -1379,6 +1379,19 @@ def judge_mesh(spec, fmt, eo, lo, route):
             return res
         R = RV[RF]
         tol = F["q"](eo)(E)
+        forced_process = fmt == "dict64" and route != "load_dict"
+        near_coincident = False
+        if forced_process:
+            # trimesh.load(<dict64>) cannot switch processing off: vertices closer than the
+            # documented tol.merge = 1e-8 are merged, which moves a coordinate by up to that much
+            # and gives the merged vertex one of the group's colours (legitimate, see C07)
+            tol = np.maximum(tol, 1e-8)
+            Vq = np.round(np.asarray(spec.V, dtype=np.float64) / 2e-8)
+            near_coincident = len(np.unique(Vq, axis=0)) < len(Vq) or bool(getattr(spec, "coincident", False))
+            if not near_coincident and len(spec.V) < 3000:
+                from scipy.spatial import cKDTree
+
+                near_coincident = len(cKDTree(np.asarray(spec.V, dtype=np.float64)).query_pairs(2e-8)) > 0
         if not res.coords(E, R, tol):
             res.add(_classify_tri_mismatch(E, R, tol), dict(res.info.get("worst", {})))
         res.info["vertex_count"] = (len(spec.V), len(RV))
@@ -1387,14 +1400,13 @@ def judge_mesh(spec, fmt, eo, lo, route):
         carried = F["colors"](eo, lo)
         kind = getattr(g.visual, "kind", None)
         res.info["visual_kind"] = kind
-        forced_process = fmt == "dict64" and route != "load_dict"
         if spec.fc is not None and "face_rgba" in carried:
             ok = kind == "face" and np.array_equal(np.asarray(g.visual.face_colors), spec.fc)
             res.compared += spec.fc.size
             if not ok:
                 res.add("face_colors_differ", {"kind": kind})
         if spec.vc is not None and ({"vertex_rgba", "vertex_rgb"} & carried):
-            if forced_process and spec.coincident:
+            if forced_process and near_coincident:
                 res.info["skipped_colors"] = "dict64 forces process=True: coincident vertices are merged"
             else:
                 ch = 4 if "vertex_rgba" in carried else 3
